@@ -572,7 +572,7 @@ impl DBM {
     ) -> Result<(), SqliteError> {
         let tx = self.get_mut_connection().transaction().unwrap();
         tx.execute(
-            "INSERT INTO appointment_receipts (tower_id, locator, start_block, user_signature, tower_signature) 
+            "INSERT OR REPLACE INTO appointment_receipts (tower_id, locator, start_block, user_signature, tower_signature) 
                 VALUES (?1, ?2, ?3, ?4, ?5)",
             params![
                 tower_id.to_vec(),
